@@ -111,7 +111,7 @@ Inv_C01_QueueSorted     == Constr => C01_QueueSorted(b)
 Inv_C02_ViewsAgree      == Constr => C02_ViewsAgree(b)
 Inv_C02_ViewsConsistent == Constr => C02_ViewsConsistent(b)
 Inv_C02_NotCrossed      == Constr => C02_NotCrossed(b)
-Inv_C03_WellFormed      == Constr => C03_WellFormed(b)
+Inv_C03_WellFormed      == Constr => C03_WellFormed(b) /\ C03_TimeOrdered(b)
 Inv_C03_Conservation    == Constr => C03_Conservation(b)
 Inv_C03_Counter         == Constr => C03_Counter(b)
 Inv_C04_State           == Constr => C04_State(b)
